@@ -38,3 +38,13 @@ claim("C16",
       "Universe 2 clients x clocks 0..N (quick N=3..4, thorough N=5: 4096^2 = 16.8M pairs). Every construction sequence of <= k operations (BFS on set values), every ordered pair of sets for the binary operations, every IdMap value over attributes {A,B} (BFS + every pair), from_iter over every <= 2-range list, and snapshot().delete_set against the hook dump on every document state of txt/map/nest histories; each result must equal the model point-wise AND be in canonical form (sorted, disjoint, non-empty, coalesced, no empty client entry, equal sets ==/hash/encode equal).",
       "model is BTreeSet/BTreeMap of points; IdMap attribute values fixed strings",
       "DESIGN.md 4/C16")
+claim("C06",
+      "bounded-exhaustive enumeration of world states (histories with causal syncs and out-of-order single-update deliveries) x every ordered replica pair x every legitimate state vector x encodings",
+      "Every world state reached by histories of L local ops on 2 real replicas with causal syncs and up to P gap-creating deliveries (states with stashed updates, Skips, gc'd ranges) is rebuilt per variant; for each ordered pair (A,B), each state vector B could send (current or any earlier one) and encode_diff/encode_state_as_update in v1/v2: B applies A's answer; dominance, monotonicity, deletions, idempotent re-application, no-op self-diff and convergence of a ping-pong to a fixpoint are checked.",
+      "stale state vectors are earlier ones of the same replica; 16 rounds stand for non-termination",
+      "DESIGN.md 4/C06")
+claim("C07",
+      "bounded-exhaustive enumeration of transaction sequences on an emitting document with passive followers fed only by its v1 / v2 update events",
+      "All sequences of <= L actions (local ops on D, ops on a remote author E, E syncing from D, deliveries of E's updates to D in any order incl. duplicates, gaps and merges, undo, redo, forced gc) are executed on real documents, state-matched on all internal dumps; after every D transaction the emitted events are applied to followers F1 (v1 only) and F2 (v2 only) whose content, state vector and delete set must equal D's; per transaction #v1 == #v2 <= 1, one if D changed, none if D's internal state did not.",
+      "remote applies use a non-tracked origin; followers share D's gc setting and have clean-up off",
+      "DESIGN.md 4/C07")
